@@ -484,11 +484,14 @@ def run_chunk(chunk):
         r.viol(v.key, f"{v.what} after history {_fmt(hist)}", dict(seed=chunk["seed"], hist=[list(o) for o in hist[1:]]), v.expected, v.observed)
 
     try:
-        with time_cap(1500):
-            seen, trans, deepest, capped = bfs.search([root_hist], h.build, h.enabled, chunk["depth"], on_violation, stats)
+        with time_cap(900):
+            # depth 4 (thorough): at most 2000 distinct states per (seed, first operation); transitions out of the kept states are still all built and judged
+            seen, trans, deepest, capped = bfs.search([root_hist], h.build, h.enabled, chunk["depth"], on_violation, stats, max_states=2000 if chunk["depth"] >= 4 else None)
     except CaseTimeout:
-        r.caps["chunk_timeout_1500s"] += 1
+        r.caps["chunk_timeout_900s"] += 1
         return r
+    if capped:
+        r.caps["depth4_state_cap_2000_per_first_operation"] += 1
     for k in seen:
         r.states.add(repr(k).encode())
     r.transitions += trans
